@@ -1,6 +1,42 @@
+(* C02 — MixedEdgeGraph / ADMG container consistency over histories. Statements: C02/Spec.v (each *_stmt is a closed
+   Prop quantifying over ALL histories [h : list (nat * op)] and both initial classes); model: C02/Model.v.
+   The theorems are about the model; they speak about pywhy_graphs only through the tie (harness/c02.py). *)
 From Coq Require Import List.
-From PG Require Import C02.Model.
-(* placeholder until the proofs land *)
-Theorem c02_placeholder : forall cls h, run cls h = run cls h.
-Proof. reflexivity. Qed.
-Print Assumptions c02_placeholder.
+From PG Require Import C02.Model C02.Spec C02.ProofsInv C02.ProofsRefine C02.ProofsQueries C02.ProofsEdges C02.Examples.
+
+(* every layer has exactly the node set, stored edges join nodes of the graph, dict keys are unique — in every
+   state of every object reachable by any history (unbounded) *)
+Theorem mixed_layers_sync : mixed_layers_sync_stmt.
+Proof. exact ProofsInv.mixed_layers_sync. Qed.
+Print Assumptions mixed_layers_sync.
+
+(* abs (run h) = run_abs h, object by object, with equal outcome classes, for every history (unbounded) *)
+Theorem mixed_refines : mixed_refines_stmt.
+Proof. exact ProofsRefine.mixed_refines. Qed.
+Print Assumptions mixed_refines.
+
+(* has_edge / number_of_edges(u,v) / get_edge_data / neighbors / to_undirected / to_directed / size answer from the
+   abstract edge sets in every reachable state (unbounded); number_of_edges(l) and degree as cardinalities: tie only *)
+Theorem mixed_queries : mixed_queries_stmt.
+Proof. exact ProofsQueries.mixed_queries. Qed.
+Print Assumptions mixed_queries.
+
+(* every abstract edge of a layer is stored exactly once, in every reachable state (unbounded): the stored list that
+   number_of_edges(edge_type=l) and degree count is duplicate-free modulo the layer's kind *)
+Theorem edges_stored_once : edges_nodup_stmt.
+Proof. exact ProofsEdges.edges_nodup_reachable. Qed.
+Print Assumptions edges_stored_once.
+
+Theorem copy_equal_independent : copy_equal_independent_stmt.
+Proof. exact ProofsQueries.copy_equal_independent. Qed.
+Print Assumptions copy_equal_independent.
+
+Theorem subgraph_exact : subgraph_exact_stmt.
+Proof. exact ProofsQueries.subgraph_exact. Qed.
+Print Assumptions subgraph_exact.
+
+(* non-vacuity: a 10-op history with copy, subgraph, a rejected and a documented-error op, evaluated by the kernel *)
+Example c02_example_history :
+  map q_noe (run 1 ex_h) = (5 :: 0 :: 5 :: nil) /\ map q_size (run 1 ex_h) = (5 :: 0 :: 5 :: nil).
+Proof. exact Examples.ex_counts. Qed.
+Print Assumptions c02_example_history.
